@@ -61,7 +61,8 @@ func exprString(e ast.Expr) string {
 // classifyMerge: the class of one MergeClause body.
 //   MInPlace  an append whose first argument is a field of the expression stored in the clause
 //             (a variable bound by  v, ok := clause.Expression.(T) )
-//   MCopy     the stored slices are copied (make + copy) and appends go to the copies only
+//   MCopy     the stored slices are copied (make + copy, or make + append onto the new slice) and
+//             every append goes to a slice made in the body
 //   MNoSlice  no append, make or copy at all
 //   MUnknown  anything else
 func classifyMerge(fd *ast.FuncDecl) string {
@@ -116,7 +117,8 @@ func classifyMerge(fd *ast.FuncDecl) string {
 			return "MUnknown"
 		}
 	}
-	if nmake > 0 && ncopy > 0 {
+	// every append targets a slice made here: the stored slice is only read (copy(...) or append(fresh, stored...))
+	if nmake > 0 && (ncopy > 0 || len(appends) > 0) {
 		return "MCopy"
 	}
 	return "MUnknown"
